@@ -31,4 +31,25 @@ base *make(int kind) { return kind ? new circle(1.0) : new base; }
 enum class mode : short { fast, exact };
 mode current_mode = mode::fast;
 void set_mode(mode m) { current_mode = m; }
+// overloads and constructors that share a qualified name and are all impacted by one leaf type change (settings grows in V >= 1)
+struct settings { int level;
+#if V >= 1
+  int flags;
+#endif
+};
+int process(const settings &s) { return s.level; }
+int process(settings *s, int n) { return s->level + n; }
+int process(settings s, double d) { return s.level + (int) d; }
+long process(const settings *a, const settings *b) { return a->level + b->level; }
+int process(settings &s, long n, long m) { return s.level + (int) (n + m); }
+int process(const settings *s, char c) { return s->level + c; }
+class worker {
+  settings s_;
+public:
+  worker(const settings &s) : s_(s) {}
+  worker(settings *s, int) : s_(*s) {}
+  worker(const settings &a, const settings &b) : s_(a) { s_.level += b.level; }
+  int run() const { return s_.level; }
+};
+int run_worker(const settings &s) { worker w(s); worker x(const_cast<settings *>(&s), 1); worker y(s, s); return w.run() + x.run() + y.run(); }
 }
